@@ -82,4 +82,47 @@ theorem sentinel_codes :
 /-- an error object always has `code` and `message` members -/
 theorem error_has_message : Consts.errorTags.take 2 = [("Code", "code", false), ("Message", "message", false)] := by decide
 
+/-! ### firstByte (decides batch vs single, and the shape of params) -/
+
+theorem dropWhile_head_false {α} (p : α → Bool) (l : List α) (x : α) (xs : List α)
+    (h : l.dropWhile p = x :: xs) : p x = false := by
+  induction l with
+  | nil => simp at h
+  | cons a l ih =>
+    simp only [List.dropWhile] at h
+    split at h
+    · exact ih h
+    · rename_i hp; injection h with h1 _; subst h1; simpa using hp
+
+theorem dropWhile_snoc {α} (p : α → Bool) (l : List α) (x : α) (hx : p x = false) :
+    ∃ zs, (l ++ [x]).dropWhile p = zs ++ [x] := by
+  induction l with
+  | nil => exact ⟨[], by simp [List.dropWhile, hx]⟩
+  | cons a l ih =>
+    by_cases hp : p a = true
+    · obtain ⟨zs, hz⟩ := ih
+      exact ⟨zs, by simp [List.dropWhile, hp, hz]⟩
+    · exact ⟨a :: l, by simp [List.dropWhile, hp]⟩
+
+theorem Jrpc.Json.trimRight_cons (x : UInt8) (xs : List UInt8) (hx : Jrpc.Json.isAsciiSpace x = false) :
+    ∃ ys, Jrpc.Json.trimRight (x :: xs) = x :: ys := by
+  unfold Jrpc.Json.trimRight
+  obtain ⟨zs, hz⟩ := dropWhile_snoc Jrpc.Json.isAsciiSpace xs.reverse x hx
+  refine ⟨zs.reverse, ?_⟩
+  simp only [List.reverse_cons, hz, List.reverse_append, List.reverse_cons, List.reverse_nil, List.nil_append,
+    List.singleton_append]
+
+/-- `firstByte` of json.go (translated; `bytes.TrimSpace` = the model's `trimSpace`) is the model's `firstByte` -/
+theorem firstByte_matches (b : List UInt8) :
+    Funcs.firstByte b Jrpc.Json.trimSpace = ((Jrpc.Json.firstByte b).toNat : Int) := by
+  unfold Funcs.firstByte Jrpc.Json.firstByte Jrpc.Json.trimSpace
+  cases ht : Jrpc.Json.trimLeft b with
+  | nil => simp [Jrpc.Json.trimRight, GoLen.len]
+  | cons x xs =>
+    have hx : Jrpc.Json.isAsciiSpace x = false := dropWhile_head_false _ _ _ _ ht
+    obtain ⟨ys, hy⟩ := Jrpc.Json.trimRight_cons x xs hx
+    simp only [hy, GoLen.len, GoIdx.idx, List.length_cons, List.getD_cons_zero]
+    have : ¬ ((ys.length : Int) + 1 = 0) := by omega
+    simp [this]
+
 end Jrpc.Tie.C02
